@@ -231,7 +231,7 @@ def alg_code(cfg):
   from fedjax.core import optimizers
   pel, _, _ = make_loss('lin')
   sizes = cfg['sizes']
-  DOM = [0, 1, 0, 1, 1, 0, 0, 1]
+  DOM = [0, 1, 0, 0, 1, 0, 0, 1]   # unequal domain sizes (a common shift of all domain losses must not cancel)
 
   def fn(w, b, X, Tg, Dm, key):
     params = {'w': w, 'b': b}
@@ -272,7 +272,7 @@ def alg_ref(cfg):
   def fn(w, b, X, Tg, Dm, key):
     params = {'w': w, 'b': b}
     N = sum(sizes)
-    DOM = [0, 1, 0, 1, 1, 0, 0, 1]
+    DOM = [0, 1, 0, 0, 1, 0, 0, 1]   # unequal domain sizes (a common shift of all domain losses must not cancel)
     if cfg['what'] in ('mime_lite_opt', 'mime_opt'):
       gs = [grad_one(params, X[i], Tg[i]) for i in range(N)]
       g = jax.tree_util.tree_map(lambda *ls: sum(ls) / N, *gs)       # full-batch gradient over the cohort
@@ -344,6 +344,23 @@ def run_one(run, kind, cfg, timeout):
               for i, a in enumerate(sym[:-1])] + [np.zeros((2,), np.uint32)]
     data = {'kind': kind, 'cfg': cfg, 'args': [np.asarray(a).tolist() for a in args]}
     ok, msg = replay_subprocess('C06', data)
+    if not ok and c.get('model') is not None:
+      # the first model did not replay: look for a tamer counterexample (inputs in [-1, 1]) before calling it an encoding gap
+      silent = type(run)(run.pid, run.tier, run.seed)
+      sj.FALSIFY['scale'] = Fraction(1, 5)
+      try:
+        c2 = jh.Harness(silent, name, timeout).equiv(code, ref, sym, assumptions=assum + jh.box_assumptions(sym[:4]))
+      finally:
+        sj.FALSIFY['scale'] = Fraction(1)
+      c2 = [x for x in c2 if x.get('model') is not None]
+      if c2:
+        args2 = list(jh.concrete_args(c2[0]['model'], sym))
+        if cfg.get('maskbits') is not None:
+          args2[4] = np.asarray(cfg['maskbits'], bool)
+        data2 = {'kind': kind, 'cfg': cfg, 'args': [np.asarray(a).tolist() for a in args2]}
+        ok2, msg2 = replay_subprocess('C06', data2)
+        if ok2:
+          data, ok, msg = data2, ok2, msg2 + ' (second counterexample, inputs in [-1, 1])'
     key = '%s:%s' % (kind, ','.join('%s=%s' % (k, cfg[k]) for k in sorted(cfg) if k in ('what', 'api', 'reg', 'mask')))
     if kind == 'alg':
       args[4] = np.zeros((0,))
